@@ -361,6 +361,9 @@ def generate(rng, **opts):
 
     # ---- builds -------------------------------------------------------------------------------------------------------
     builds = {}
+    import zlib
+    frng = random.Random(zlib.crc32(locus_seq.encode()))
+    flanks = (_rand_seq(frng, 600), _rand_seq(frng, 600))
     for bi, build in enumerate(BUILDS):
         strand = strands[bi]
         neutral_len = rng.randint(300, 800)
@@ -383,6 +386,12 @@ def generate(rng, **opts):
         win = list(_rand_seq(rng, win_end - win_start))
         oriented = locus_seq if strand == "+" else rc(locus_seq)
         win[locus_start - win_start:locus_end - win_start] = list(oriented)
+        # the 600 bases on either side of the locus are the SAME sequence in both builds (as they are in the real assemblies): reads
+        # that run over the locus boundary, and the realigner's reference context of an indel near it, are then build-independent.
+        # Drawn from a generator of their own so that the other draws of a database seed stay what they were
+        fl_up, fl_down = flanks if strand == "+" else (rc(flanks[1]), rc(flanks[0]))
+        win[locus_start - win_start - 600:locus_start - win_start] = list(fl_up)
+        win[locus_end - win_start:locus_end - win_start + 600] = list(fl_down)
         regions = {r: [iv(tr_regions[r][0]), iv(tr_regions[r][1])] for r in reg_names}
         refmap_low = min(tr2chr(ref_t0), tr2chr(T - 1))
         b = {"chr": chrom, "strand": strand, "map_start_1based": refmap_low + 1, "map_end_1based": refmap_low + 1 + N,
